@@ -231,7 +231,7 @@ const ringModelHasAbandon = true
 
 func checkC07(c *Ctx) {
 	r := c.Rng
-	c.Ev.Coverage.Rule = "documents above the 8 KiB threshold needing 2..200 index buffers (valid, stage-1-invalid and stage-2-invalid at a chosen point, big objects truncated inside a member) parsed under forced schedules through the verif event hooks: free running, lagging consumer (producer driven into the full channel), lagging producer (consumer blocked in receive), random stop/go at every event, consumer holding each just-received buffer until the producer is 15 buffers ahead; GOMAXPROCS 1/2/4/16. Each recorded event trace is linearised and replayed through the Coq transition system (extracted Ring.run): every event must be enabled, every visited state Safe, consumed in order; the outcome must equal the schedule-free model/spec outcome. non-trivial = trace with >= 2 buffers accepted by the model; distinct = by (document, mode, trace)"
+	c.Ev.Coverage.Rule = "documents above the 8 KiB threshold needing 2..200 index buffers (valid, stage-1-invalid and stage-2-invalid at a chosen point, big objects truncated inside a member) parsed (every second run into the ParsedJson an earlier run returned, whose own index channel and capacity are then the ones replayed) under forced schedules through the verif event hooks: free running, lagging consumer (producer driven into the full channel), lagging producer (consumer blocked in receive), random stop/go at every event, consumer holding each just-received buffer until the producer is 15 buffers ahead; GOMAXPROCS 1/2/4/16. Each recorded event trace is linearised and replayed through the Coq transition system (extracted Ring.run): every event must be enabled, every visited state Safe, consumed in order; the outcome must equal the schedule-free model/spec outcome. non-trivial = trace with >= 2 buffers accepted by the model; distinct = by (document, mode, trace)"
 	capN, slots := 14, 16
 	if pj, err := simdjson.Parse([]byte(`{"a":1}`), nil); err == nil {
 		cc, _, _ := simdjson.VerifChanState(pj)
@@ -243,6 +243,8 @@ func checkC07(c *Ctx) {
 	ncase := c.N(260, 6000)
 	type job struct {
 		doc   []byte
+		capN  int
+		reuse bool
 		mode  int
 		procs int
 		trace string
@@ -251,6 +253,7 @@ func checkC07(c *Ctx) {
 		dump  string
 	}
 	var jobs []*job
+	var prev *simdjson.ParsedJson // destination of an earlier parse, handed back in every second run
 	g0 := runtime.NumGoroutine()
 	oldProcs := runtime.GOMAXPROCS(0)
 	for i := 0; i < ncase; i++ {
@@ -291,7 +294,11 @@ func checkC07(c *Ctx) {
 		simdjson.VerifEventHook = rc.hook
 		setKernel(hwAVX512 && i%2 == 0)
 		done := make(chan ParseOut, 1)
-		go func() { done <- implParse(doc, false, i%3 != 0, nil) }()
+		var reuse *simdjson.ParsedJson
+		if i%2 == 1 {
+			reuse = prev
+		}
+		go func() { done <- implParse(doc, false, i%3 != 0, reuse) }()
 		var out ParseOut
 		select {
 		case out = <-done:
@@ -303,7 +310,19 @@ func checkC07(c *Ctx) {
 			return
 		}
 		simdjson.VerifEventHook = nil
-		j := &job{doc: doc, mode: mode, procs: procs, out: out}
+		j := &job{doc: doc, mode: mode, procs: procs, out: out, capN: capN, reuse: reuse != nil}
+		// the channel this run actually used (a reused parser keeps its own)
+		if used := out.PJ; used != nil || reuse != nil {
+			if used == nil {
+				used = reuse
+			}
+			if cc, _, has := simdjson.VerifChanState(used); has && cc > 0 {
+				j.capN = cc
+			}
+		}
+		if !out.Err {
+			prev = out.PJ
+		}
 		rc.mu.Lock()
 		evs := append([]evRec{}, rc.evs...)
 		rc.mu.Unlock()
@@ -329,7 +348,7 @@ func checkC07(c *Ctx) {
 			_ = last
 			consumerFailed = nrecv < nsent
 		}
-		j.trace, j.nbuf = linearize(evs, capN, consumerFailed)
+		j.trace, j.nbuf = linearize(evs, j.capN, consumerFailed)
 		if !ringModelHasAbandon {
 			// producer failure path: the last acquired buffer is withheld and the terminator
 			// sent instead (A ... T with no S in between).  Until the transition system has
@@ -357,16 +376,23 @@ func checkC07(c *Ctx) {
 	}
 	var reqs []string
 	for _, j := range jobs {
-		reqs = append(reqs, fmt.Sprintf("ring %d %d %d %s", slots, capN, j.nbuf, j.trace))
+		reqs = append(reqs, fmt.Sprintf("ring %d %d %d %s", slots, j.capN, j.nbuf, j.trace))
 		reqs = append(reqs, "spec "+hexOrDash(j.doc))
 	}
 	ans := c.Or.Ask(reqs)
+	capReported := false
 	for k, j := range jobs {
 		ring, spec := ans[2*k], ans[2*k+1]
 		cs := map[string]interface{}{"doc_hex": fmt.Sprintf("%x", j.doc), "mode": j.mode, "gomaxprocs": j.procs, "trace": trunc(j.trace, 2000),
-			"buffers": j.nbuf, "ring": ring, "spec": trunc(spec, 100), "impl_err": j.out.Err}
+			"buffers": j.nbuf, "channel_capacity": j.capN, "reused_parser": j.reuse, "ring": ring, "spec": trunc(spec, 100), "impl_err": j.out.Err}
 		c.Ev.Dist(fmt.Sprintf("mode:%d", j.mode))
 		c.Ev.Dist(fmt.Sprintf("gomaxprocs:%d", j.procs))
+		c.Ev.Dist(fmt.Sprintf("reused-parser:%v", j.reuse))
+		if j.capN+2 > slots && !capReported {
+			capReported = true
+			c.Violate("ring-capacity", fmt.Sprintf("this run's index channel has capacity %d with %d ring slots: the ring theorems need capacity+2 <= slots (one slot being written, one being read)", j.capN, slots), "ring-capacity", cs)
+			c.ringRefutationProbe(slots, j.capN)
+		}
 		if j.nbuf > slots {
 			c.Ev.Dist("buffers:>slots")
 		} else {
